@@ -89,7 +89,11 @@ theorem nextAfter_last_iff {l : List Instr} (hn : (l.map (·.index)).Nodup) {i :
     simp only [List.head?_cons, Option.some.injEq, reduceCtorEq, false_iff]
     intro h
     have hlast : (pre ++ i :: y :: r).getLast? = (y :: r).getLast? := by
-      simp [List.getLast?_append, List.getLast?_cons_cons]
+      have : pre ++ i :: y :: r = (pre ++ [i]) ++ (y :: r) := by simp
+      rw [this, List.getLast?_append]
+      cases hh : (y :: r).getLast? with
+      | none => simp at hh
+      | some z => rfl
     rw [hlast] at h
     have hm : i ∈ y :: r := List.mem_of_getLast? h
     exact hs.2 i hm rfl
@@ -169,7 +173,8 @@ theorem hasBlock_iff {c : Cfg} {k : Nat} : c.hasBlock k = true ↔ ∃ b, c.bloc
       exact absurd hk (h b hb)
     | some b' => exact ⟨b', rfl⟩
   · rintro ⟨b, h⟩
-    exact ⟨b, List.mem_of_find?_eq_some h, List.find?_some h⟩
+    have h2 := List.find?_some h
+    exact ⟨b, List.mem_of_find?_eq_some h, h2⟩
 
 theorem edge_some {c : Cfg} {h t : Nat} {e : Edge} (he : c.edge h t = some e) :
     e ∈ c.edges ∧ e.head = h ∧ e.tail = t := by
@@ -220,8 +225,8 @@ theorem mem_locations_instr {f : Function} {b : Block} {i : Instr} :
       cases hh : b.instrs with
       | nil => rw [hh] at hi; simp at hi
       | cons _ _ => rfl
-    simp only [this, Bool.false_eq_true, ↓reduceIte, List.mem_map, FLoc.instr.injEq]
-    exact ⟨i, hi, rfl, rfl⟩
+    simp only [this, Bool.false_eq_true, ↓reduceIte, List.mem_map]
+    exact ⟨i, hi, rfl⟩
 
 theorem mem_locations_empty {f : Function} {b : Block} :
     FLoc.empty b ∈ f.locations ↔ b ∈ f.cfg.blocks ∧ b.instrs = [] := by
